@@ -17,6 +17,8 @@ enum Kind {
     BitFlipHash,
     /// hashes: a byte permutation of the genuine value (reversed / rotated / two bytes swapped); points: other point
     PermutedHash,
+    /// hashes: all 00 or all ff ("field not sent"); points: other point
+    ConstantHash,
 }
 
 struct Case {
@@ -41,7 +43,7 @@ fn wit(c: &Case) -> serde_json::Value {
 fn tamper_point(pt: &(BigUint, BigUint), kind: Kind, p: &mut Prng) -> (BigUint, BigUint) {
     let c = r2::curve();
     match kind {
-        Kind::OtherPoint | Kind::BitFlipHash | Kind::PermutedHash => r2::mul(&rand_scalar(p, &c.n), &r2::g()).unwrap(),
+        Kind::OtherPoint | Kind::BitFlipHash | Kind::PermutedHash | Kind::ConstantHash => r2::mul(&rand_scalar(p, &c.n), &r2::g()).unwrap(),
         Kind::Negated => r2::neg(&Some(pt.clone())).unwrap(),
         Kind::OffCurve => (pt.0.clone(), (&pt.1 + 1u32) % &c.p),
     }
@@ -49,6 +51,10 @@ fn tamper_point(pt: &(BigUint, BigUint), kind: Kind, p: &mut Prng) -> (BigUint, 
 
 fn tamper_hash(h: &[u8; 32], p: &mut Prng, kind: Kind) -> [u8; 32] {
     let mut o = *h;
+    if kind == Kind::ConstantHash {
+        let v = if p.below(2) == 0 { [0u8; 32] } else { [0xffu8; 32] };
+        return if v == *h { [0x55; 32] } else { v };
+    }
     if kind == Kind::PermutedHash {
         match p.below(4) {
             0 => o.reverse(),
@@ -308,7 +314,7 @@ pub fn run(ctx: &mut Ctx) {
     for (n, ok) in r2::selftest() {
         ctx.selftest(&n, ok);
     }
-    ctx.require(&["annex_kat", "honest_keys_equal", "step2_rejects_invalid_RA", "step3_rejects", "step4_rejects", "klen=1", "klen=16", "klen=200", "kind=OffCurve", "kind=Negated", "kind=OtherPoint", "kind=BitFlipHash", "kind=PermutedHash", "klen_needs_more_than_255_kdf_blocks", "honest_R_rerandomised_representation", "id_non_ascii_utf8", "key_from_gen_keypair", "key_with_jacobian_public_point", "degenerate_dA_shared_point_infinity_at_B", "degenerate_dB_shared_point_infinity_at_A", "coincident_dA_P_eq_xbarR_doubling_at_B", "coincident_dB_P_eq_xbarR_doubling_at_A", "crafted_valid_R_A", "derived_key_all_zero", "same_static_key_both_parties", "same_id_both_parties", "many_calls_one_process"]);
+    ctx.require(&["annex_kat", "honest_keys_equal", "step2_rejects_invalid_RA", "step3_rejects", "step4_rejects", "klen=1", "klen=16", "klen=200", "kind=OffCurve", "kind=Negated", "kind=OtherPoint", "kind=BitFlipHash", "kind=PermutedHash", "kind=ConstantHash", "klen_needs_more_than_255_kdf_blocks", "honest_R_rerandomised_representation", "id_non_ascii_utf8", "key_from_gen_keypair", "key_with_jacobian_public_point", "degenerate_dA_shared_point_infinity_at_B", "degenerate_dB_shared_point_infinity_at_A", "coincident_dA_P_eq_xbarR_doubling_at_B", "coincident_dB_P_eq_xbarR_doubling_at_A", "crafted_valid_R_A", "derived_key_all_zero", "same_static_key_both_parties", "same_id_both_parties", "many_calls_one_process", "id_length_sweep"]);
     for s in 0..16 {
         ctx.required.push(format!("subset={:04b}", s));
     }
@@ -413,6 +419,23 @@ pub fn run(ctx: &mut Ctx) {
             }
         }
     }
+    // --- identity lengths 0..=130 for either party: the hash input of Z_A / Z_B (194 + |ID| bytes) then takes every
+    // residue modulo the SM3 block size, including the padding corner cases of the hash underneath
+    {
+        let mut pi = ctx.prng("id_sweep");
+        for len in 0..=130usize {
+            let sub = pi.next();
+            if !ctx.mine(len as u64) {
+                continue;
+            }
+            let mut q = Prng::new(sub, "ids");
+            let (ida, idb) = if len % 2 == 0 { (ascii_id(&mut q, len), ascii_id(&mut q, 9)) } else { (ascii_id(&mut q, 7), ascii_id(&mut q, len)) };
+            let case = Case { da: rand_scalar(&mut q, &(&c.n - 1u32)), db: rand_scalar(&mut q, &(&c.n - 1u32)), ida, idb, klen: 16, ra: rand_scalar(&mut q, &c.n), rb: rand_scalar(&mut q, &c.n), subset: 0, kind: Kind::OtherPoint, repeat: false };
+            ctx.class("id_length_sweep");
+            history(ctx, &case, &mut q);
+        }
+        ctx.exhaustive("identity lengths 0..=130 (alternating parties)", true);
+    }
     // --- many runs in one process (call-count dependent faults): 300 honest exchanges with fresh scalars
     if ctx.shard == 0 {
         let mut pm = ctx.prng("many");
@@ -431,7 +454,7 @@ pub fn run(ctx: &mut Ctx) {
     }
     let n = ctx.n(600, 40_000);
     let mut prng = ctx.prng("hist");
-    let kinds = [Kind::OtherPoint, Kind::Negated, Kind::OffCurve, Kind::BitFlipHash, Kind::PermutedHash];
+    let kinds = [Kind::OtherPoint, Kind::Negated, Kind::OffCurve, Kind::BitFlipHash, Kind::PermutedHash, Kind::ConstantHash];
     for i in 0..n {
         let sub = prng.next();
         if !ctx.mine(i) {
@@ -468,7 +491,7 @@ pub fn run(ctx: &mut Ctx) {
             ra: rand_scalar(&mut p, &c.n),
             rb: rand_scalar(&mut p, &c.n),
             subset: if i % 3 == 0 { 0 } else { ((i / 3) % 16) as u8 },
-            kind: kinds[((i / 48) % 5) as usize],
+            kind: kinds[((i / 48) % 6) as usize],
             repeat: i % 3 == 0 && i % 7 == 3,
         };
         // aliasing: both parties hold the same static key pair and / or the same identity
